@@ -618,3 +618,98 @@ pub fn make_unhealthy_target(sim: &mut Sim, ctx: &mut Ctx, only: Option<Pubkey>)
         sim.apply(ev);
     }
 }
+
+/// Grammar-based shape fuzzer: a short random word over the alphabet of bracket-relevant
+/// instructions for two accounts A and B of the same group (starts and ends of all three bracket
+/// kinds, look-alikes of ends, ordinary operations, foreign programs), with the start's end index
+/// drawn at random or aimed at a random later position.  Most words are refused by the program;
+/// the monitors judge the ones that commit.  Complements the template + single-fault generators
+/// above, whose blind spots were each found by a seeded regression (DESIGN 9.4).
+pub fn act_shape_fuzz(sim: &mut Sim, ctx: &mut Ctx) -> Option<Tx> {
+    let gi = ctx.rng.below(ctx.world.groups.len() as u64) as usize;
+    let us = users_in_group(ctx, gi);
+    if us.len() < 2 {
+        return None;
+    }
+    let (ui_a, a) = *ctx.rng.pick(&us);
+    let others: Vec<(usize, Pubkey)> = us.iter().filter(|(x, _)| *x != ui_a).cloned().collect();
+    let (ui_b, b) = *ctx.rng.pick(&others);
+    let g = ctx.world.groups[gi].clone();
+    let ua = ctx.world.users[ui_a].clone();
+    let ub = ctx.world.users[ui_b].clone();
+    if ctx.rng.chance(1, 3) {
+        make_unhealthy_target(sim, ctx, Some(a));
+    }
+    let n = ctx.rng.range(2, 6) as usize;
+    let fee_wallet = ctx.world.fee_wallet;
+    let allowed = ctx.world.allowed_foreign;
+    let failing = marginfi::constants::TITAN_KEY;
+    sim.stats.fault("tx_shape_fuzz");
+    let mut ixs: Vec<Ix> = Vec::new();
+    let mut start_positions: Vec<(usize, Pubkey, Pubkey)> = Vec::new();
+    for pos in 0..n {
+        let (x, ux) = if ctx.rng.chance(2, 3) { (a, &ua) } else { (b, &ub) };
+        let (y, _uy) = if x == a { (b, &ub) } else { (a, &ua) };
+        let rm = risk_metas(&sim.store, &x, None, None);
+        let ixn = match ctx.rng.below(20) {
+            0 => ix::compute_budget(),
+            1 | 2 | 3 => {
+                start_positions.push((pos, x, ux.authority));
+                ix::start_flashloan(x, ux.authority, ctx.rng.below(n as u64 + 2))
+            }
+            4 | 5 | 6 => {
+                let mut rem = match ctx.rng.below(3) {
+                    0 => vec![],
+                    _ => rm.clone(),
+                };
+                if ctx.rng.chance(1, 4) {
+                    rem.push(ix::ro(y));
+                }
+                ix::end_flashloan(x, ux.authority, rem)
+            }
+            7 => {
+                let fake = ix::end_flashloan(x, ux.authority, vec![]);
+                Ix { program_id: allowed, accounts: vec![ix::ro(x)], data: fake.data, wrapper: None, tag: "allowed_foreign" }
+            }
+            8 => ix::pulse_health(x, rm.clone()),
+            9 | 10 | 11 | 12 => {
+                let bk = ctx.rng.pick(&g.banks).clone();
+                let Some(ta) = ux.tokens.get(&bk.keys.mint).cloned() else { continue };
+                let vault = token_balance(&sim.store, &bk.keys.liquidity_vault);
+                let bal = token_balance(&sim.store, &ta);
+                let rmi = risk_metas(&sim.store, &x, Some(bk.keys.bank), None);
+                match ctx.rng.below(4) {
+                    0 => ix::borrow(&bk.keys, x, ux.authority, ta, pick_amount(ctx.rng, vault / 4 + 1), rmi),
+                    1 => ix::withdraw(&bk.keys, x, ux.authority, ta, pick_amount(ctx.rng, vault / 4 + 1), None, rmi),
+                    2 => ix::deposit(&bk.keys, x, ux.authority, ta, pick_amount(ctx.rng, bal / 8 + 1), None),
+                    _ => ix::repay(&bk.keys, x, ux.authority, ta, pick_amount(ctx.rng, bal / 8 + 1), None),
+                }
+            }
+            13 => Ix::foreign("allowed_foreign", allowed, vec![9; 8]),
+            14 => {
+                if ctx.rng.chance(1, 3) {
+                    Ix::foreign("failing_foreign", failing, vec![0; 8])
+                } else {
+                    Ix::foreign("allowed_foreign", allowed, vec![5; 8])
+                }
+            }
+            15 => ix::init_liq_record(x, ctx.world.payer),
+            16 => ix::start_liquidation(x, ub.authority, rm.clone()),
+            17 => ix::end_liquidation(x, ub.authority, fee_wallet, rm.clone()),
+            18 => ix::start_deleverage(g.key, x, g.admins.risk, rm.clone()),
+            _ => ix::end_deleverage(g.key, x, g.admins.risk, rm.clone()),
+        };
+        ixs.push(ixn);
+    }
+    // aim some start at a real later position (otherwise almost every word dies on the index)
+    for (pos, x, auth) in start_positions {
+        if ctx.rng.chance(2, 3) && pos + 1 < ixs.len() {
+            let target = ctx.rng.range(pos as u64 + 1, ixs.len() as u64 - 1);
+            ixs[pos] = ix::start_flashloan(x, auth, target);
+        }
+    }
+    if ixs.is_empty() {
+        return None;
+    }
+    Some(Tx::many("shape_fuzzer", ixs))
+}
